@@ -6,6 +6,7 @@ import (
 	"net"
 	"net/http"
 	"sync"
+	"sync/atomic"
 	"syscall"
 	"testing"
 	"time"
@@ -296,7 +297,7 @@ func TestPropHealth(t *testing.T) {
 type ShutScn struct {
 	Signal    string `json:"signal"` // INT | TERM
 	GraceS    int    `json:"grace_s"`
-	Phase     string `json:"phase"` // idle | listed | backend | uploading
+	Phase     string `json:"phase"` // idle | listed | backend | uploading | failing (the proxy starts failing list calls shortly before the signal)
 	LatencyMs int    `json:"latency_ms"`
 	SignalMs  int    `json:"signal_after_ms"`
 }
@@ -309,7 +310,7 @@ func genShutScn(t *rapid.T) ShutScn {
 	s := ShutScn{
 		Signal: rapid.SampledFrom([]string{"INT", "TERM"}).Draw(t, "signal"),
 		GraceS: rapid.SampledFrom([]int{0, 1, 2, 3}).Draw(t, "grace"),
-		Phase:  rapid.SampledFrom([]string{"idle", "listed", "backend", "backend", "backend", "uploading"}).Draw(t, "phase"),
+		Phase:  rapid.SampledFrom([]string{"idle", "listed", "backend", "failing", "backend", "uploading", "backend", "failing"}).Draw(t, "phase"),
 	}
 	s.SignalMs = rapid.SampledFrom([]int{50, 100, 200}).Draw(t, "signalAfter")
 	switch rapid.IntRange(0, 2).Draw(t, "lat") {
@@ -369,6 +370,14 @@ func runShutScn(s *ShutScn) (o vh.Outcome) {
 		}
 		return false
 	}
+	var listsFail atomic.Bool
+	fp.ListHook = func(w http.ResponseWriter, r *http.Request) bool {
+		if listsFail.Load() {
+			http.Error(w, "pending list unavailable", http.StatusInternalServerError)
+			return true
+		}
+		return false
+	}
 	meta := vh.NewFakeMeta()
 	defer meta.Close()
 	var args []string
@@ -389,7 +398,9 @@ func runShutScn(s *ShutScn) (o vh.Outcome) {
 	}
 	var slow *vh.FPRequest
 	latency := 0
-	if s.Phase != "idle" {
+	if s.Phase == "failing" {
+		listsFail.Store(true)
+	} else if s.Phase != "idle" {
 		path := "/slow"
 		if s.Phase != "backend" {
 			path = "/fast"
@@ -467,6 +478,18 @@ func runShutScn(s *ShutScn) (o vh.Outcome) {
 						c.Start.Sub(tSig), s.Signal, cut.Sub(tSig))
 					return
 				}
+			}
+		}
+		// a request whose response was already being uploaded when the signal arrived is answered in full as well
+		if s.Phase == "uploading" {
+			remaining := time.Duration(s.LatencyMs)*time.Millisecond - tSig.Sub(phaseAt)
+			if remaining < grace-500*time.Millisecond {
+				up := slow.Wait(100 * time.Millisecond)
+				if up == nil || string(up.Body) != "response-of-/fast" {
+					o.Err = fmt.Errorf("the response of a request was being uploaded when SIG%s arrived, the proxy finished reading %v later (period %v) but the upload did not complete intact", s.Signal, remaining, grace)
+					return
+				}
+				o.Classes = append(o.Classes, "in-flight-upload-completed")
 			}
 		}
 		// the request already at the backend is answered in full if the backend finishes within the period
